@@ -136,6 +136,19 @@ func init() {
 		rtPkg + ".IteU64": func(m *Machine, _ *Thread, _ *Frame, a []Value, _ ssa.Value) Value {
 			return Ite(a[0].(*Term), a[1].(*Term), a[2].(*Term))
 		},
+		rtPkg + ".SQLKind": func(m *Machine, _ *Thread, _ *Frame, a []Value, _ ssa.Value) Value {
+			q, ok := m.litValue(a[0].(*Term))
+			if !ok {
+				return BVC(64, 0)
+			}
+			return BVC(64, uint64(sqlKind(q)))
+		},
+		rtPkg + ".Hash32": func(m *Machine, _ *Thread, _ *Frame, a []Value, _ ssa.Value) Value {
+			return ByteArr{T: m.termOf(a[0]), N: 32}
+		},
+		rtPkg + ".BytesOf32": func(m *Machine, _ *Thread, _ *Frame, a []Value, _ ssa.Value) Value {
+			return ByteSlice{T: a[0].(ByteArr).T}
+		},
 		rtPkg + ".IteBool": func(m *Machine, _ *Thread, _ *Frame, a []Value, _ ssa.Value) Value {
 			return Ite(a[0].(*Term), a[1].(*Term), a[2].(*Term))
 		},
@@ -570,4 +583,30 @@ func (m *Machine) formatInt(t *Term, signed bool, width int) *Term {
 		return Ite(neg, negDigits, res)
 	}
 	return res
+}
+
+// sqlKind recognises the statement shapes of the database contract model.
+func sqlKind(q string) int {
+	n := strings.ToLower(strings.Join(strings.Fields(strings.ReplaceAll(strings.ReplaceAll(strings.ReplaceAll(q, "(", " ( "), ")", " ) "), ",", " , ")), " "))
+	n = strings.TrimSuffix(strings.TrimSpace(n), ";")
+	n = strings.TrimSpace(n)
+	switch {
+	case strings.HasPrefix(n, "create table if not exists chkpts ("):
+		return 1
+	case n == "select chkpt from chkpts where logid = ?":
+		return 2
+	case n == "select logid from chkpts":
+		return 3
+	case n == "insert or replace into chkpts ( logid , chkpt ) values ( ? , ? )", n == "replace into chkpts ( logid , chkpt ) values ( ? , ? )":
+		return 4
+	case n == "insert into chkpts ( logid , chkpt ) values ( ? , ? )":
+		return 5
+	case n == "update chkpts set chkpt = ? where logid = ?":
+		return 6
+	case n == "delete from chkpts where logid = ?":
+		return 7
+	case n == "insert or ignore into chkpts ( logid , chkpt ) values ( ? , ? )":
+		return 8
+	}
+	return 0
 }
